@@ -50,6 +50,32 @@ func (d *delayStore) Get(k []byte) ([]byte, error) {
 }
 func (d *delayStore) Has(k []byte) (bool, error) { d.maybeYield(); return d.KVStoreWithBatch.Has(k) }
 
+// its batches linger a little AFTER the inner write has been applied: whatever the caller does
+// between "the batch is visible in the store" and its own bookkeeping happens in a wider window
+func (d *delayStore) NewBatch() corestore.Batch {
+	return &delayBatch{Batch: d.KVStoreWithBatch.NewBatch()}
+}
+
+func (d *delayStore) NewBatchWithSize(n int) corestore.Batch {
+	return &delayBatch{Batch: d.KVStoreWithBatch.NewBatchWithSize(n)}
+}
+
+type delayBatch struct{ corestore.Batch }
+
+func (b *delayBatch) Write() error {
+	err := b.Batch.Write()
+	runtime.Gosched()
+	time.Sleep(100 * time.Microsecond)
+	return err
+}
+
+func (b *delayBatch) WriteSync() error {
+	err := b.Batch.WriteSync()
+	runtime.Gosched()
+	time.Sleep(100 * time.Microsecond)
+	return err
+}
+
 type c06cfg struct {
 	cache   int
 	fast    bool
@@ -62,6 +88,9 @@ type c06cfg struct {
 	prepopulate bool
 	// pinLatest: the export is opened on the version that is the latest one at that moment
 	pinLatest bool
+	// staleIndex: the existing database was written with the fast index ENABLED; the concurrent
+	// phase runs with it disabled (the persisted index is no longer maintained and must not be used)
+	staleIndex bool
 }
 
 func (c c06cfg) String() string {
@@ -86,6 +115,10 @@ type c06world struct {
 	ops       []porcupine.Operation
 	clock     atomic.Int64
 	first     int64
+	// the version being committed right now and its contents: a reader that manages to open it
+	// before SaveVersion has returned must already read exactly this
+	pendingVer  int64
+	pendingSnap model.Snap
 }
 
 func (w *c06world) bad(sig, f string, a ...any) {
@@ -347,7 +380,7 @@ func runConcurrent(c *fw.Ctx, cfg c06cfg) {
 	seed := c.Rng.Int63()
 	// half of the runs start from an existing database opened by a fresh handle (cold caches)
 	if cfg.prepopulate {
-		t0 := iavl.NewMutableTree(store, cfg.cache, !cfg.fast, iavl.NewNopLogger())
+		t0 := iavl.NewMutableTree(store, cfg.cache, !(cfg.fast || cfg.staleIndex), iavl.NewNopLogger())
 		if _, err := t0.Load(); err != nil {
 			c.Violate(0, "exec|open|error", "%v", err)
 			return
@@ -425,11 +458,38 @@ func runConcurrent(c *fw.Ctx, cfg c06cfg) {
 				}
 				v := lo + int64(rng.Intn(int(hi-lo+1)))
 				call := w.clock.Add(1)
-				_, err := t.GetImmutable(v)
+				it, err := t.GetImmutable(v)
 				ret := w.clock.Add(1)
 				out := "ok"
 				if err != nil {
 					out = "notfound"
+				}
+				if err == nil {
+					// a version that can be opened reads exactly, also while its commit is still in
+					// progress (only the newest versions are judged: they are never pruned)
+					w.mu.Lock()
+					var snap model.Snap
+					newest := int64(0)
+					if n := len(w.published); n > 0 {
+						newest = w.published[n-1]
+					}
+					if v == w.pendingVer && v > newest {
+						snap = w.pendingSnap
+					} else if v == newest {
+						snap = w.snaps[v]
+					}
+					w.mu.Unlock()
+					if snap != nil {
+						for i := 0; i < 3; i++ {
+							k := []byte(fmt.Sprintf("k%03d", rng.Intn(cfg.keys)))
+							got, gerr := it.Get(k)
+							want, present := snap[string(k)]
+							if gerr != nil || (got != nil) != present || (present && string(got) != want) {
+								w.bad("conc|scout|get", "version %d could be opened (newest published %d): Get(%q)=(%q,%v), its contents say %q (present=%v)", v, newest, k, got, gerr, want, present)
+							}
+						}
+						w.count("scout_reads_of_the_newest_or_pending_version", 1)
+					}
 				}
 				w.record(100+id, visEvent{"open", v}, call, out, ret)
 				w.count("scout_opens", 1)
@@ -468,6 +528,9 @@ func runConcurrent(c *fw.Ctx, cfg c06cfg) {
 			t.SetCommitting()
 		}
 		wv := M.WorkingVersion()
+		w.mu.Lock()
+		w.pendingVer, w.pendingSnap = wv, M.Work.Clone()
+		w.mu.Unlock()
 		call := w.clock.Add(1)
 		hash, ver, err := t.SaveVersion()
 		ret := w.clock.Add(1)
@@ -1157,6 +1220,7 @@ func c06Config(i int, tier string) (kind string, cfg c06cfg, point string) {
 		{cache: 8, fast: false, async: true, backend: "memdb-delay"},
 		{cache: 0, fast: true, backend: "prefix-memdb"},
 		{cache: 100, fast: false, async: true, backend: "prefix-memdb"},
+		{cache: 100, fast: false, backend: "memdb", staleIndex: true},
 	}
 	reps := 4
 	if tier == "thorough" {
@@ -1169,7 +1233,7 @@ func c06Config(i int, tier string) (kind string, cfg c06cfg, point string) {
 		cfg.readers = []int{2, 8, 16}[(i/len(matrix))%3]
 		cfg.rounds = 60
 		cfg.keys = []int{6, 24}[(i/len(matrix))%2]
-		cfg.prepopulate = (i/len(matrix))%2 == 1 || cfg.backend == "memdb-delay" || cfg.backend == "prefix-memdb"
+		cfg.prepopulate = (i/len(matrix))%2 == 1 || cfg.backend == "memdb-delay" || cfg.backend == "prefix-memdb" || cfg.staleIndex
 		if tier == "thorough" {
 			cfg.rounds = 150
 		}
@@ -1283,10 +1347,10 @@ func init() {
 			if tier == "thorough" {
 				reps = 100
 			}
-			return 12*reps + len(c06Points)*4 + 8 + 8 + 1
+			return 13*reps + len(c06Points)*4 + 8 + 8 + 1
 		},
 		CaseTimeout: 240e9,
-		Rule: "built with the Go race detector. Case kinds: (stress) 12 configurations {node cache 0/3/8/100/10000} x {fast index on/off} x {sync pruning, background pruning with the SetCommitting/UnsetCommitting protocol} x {MemDB, MemDB with unsynchronised yields around storage calls, GoLevelDB, PrefixDB (prefix slice with spare capacity) over a yielding MemDB} x readers in {2,8,16}, repeated 4x (quick) / 100x (thorough): one writer (Set/Remove/SaveVersion/DeleteVersionsTo of versions nobody reads) and N readers that obtain committed versions with GetImmutable and run Get, GetWithIndex, Has, Iterator, IterateRange, GetProof (verified against the commit hash), Export, Hash, GetByIndex - every result compared with the snapshot published at commit; 2 scout goroutines open arbitrary version numbers and the commit/prune/open history is checked with porcupine against the per-version model uncommitted->committed->deleted; background pruning must reach its target within a bound after the writer stops (otherwise inconclusive). " +
+		Rule: "built with the Go race detector. Case kinds: (stress) 13 configurations {node cache 0/3/8/100/10000} x {fast index on/off} x {sync pruning, background pruning with the SetCommitting/UnsetCommitting protocol} x {MemDB, MemDB with unsynchronised yields around storage calls, GoLevelDB, PrefixDB (prefix slice with spare capacity) over a yielding MemDB; the yielding store also lingers after every batch write; one configuration runs with the index disabled over a database written with it enabled} x readers in {2,8,16}, repeated 4x (quick) / 100x (thorough): one writer (Set/Remove/SaveVersion/DeleteVersionsTo of versions nobody reads) and N readers that obtain committed versions with GetImmutable and run Get, GetWithIndex, Has, Iterator, IterateRange, GetProof (verified against the commit hash), Export, Hash, GetByIndex - every result compared with the snapshot published at commit; 2 scout goroutines open arbitrary version numbers (a version that opens while its commit is still in progress must already read exactly its contents) and the commit/prune/open history is checked with porcupine against the per-version model uncommitted->committed->deleted; background pruning must reach its target within a bound after the writer stops (otherwise inconclusive). " +
 			"In the stress cases the verif yield points inside pruning and cloning only delay (Gosched + 30us, no synchronisation, hence no happens-before edge) to widen the windows between protocol steps. (hook) oracle mode: the writer is parked at a verif yield point (in SaveVersion when everything is queued and nothing written; in SaveVersion after the batch commit, before SaveVersion returns; between per-version steps of DeleteVersionsTo; between the committing check and the lock in pruning; in Node.clone) and every reader operation type runs on every published version while it is parked - hook points x reader operations is enumerated. (pause) a reader of the latest version is parked INSIDE its storage read (fast-index entry or node, via a pausing storage wrapper on a freshly opened handle with cold caches) while the writer commits a change of the same key; the reader must return its version's value and afterwards every version must read exactly; every third round uses the \"between\" schedule on a freshly opened handle instead: writer changes k (uncommitted), a reader goroutine reads k in the latest committed version, writer commits, every version must read exactly. (pin) a version with an open Exporter (plus a second, double-closed export of it; half of the cases open the export while the version is still the latest one and commit two more versions) cannot be deleted from another goroutine, its stream is R's complete post-order stream, and the deletion succeeds after Close. " +
 			"(canary) one case commits a deliberate unsynchronised write pair inside the harness; its report must appear in the collected logs, otherwise the run is inconclusive. All race-detector reports of all workers are collected from the race logs, deduplicated by the pair of first iavl frames and reported if both accesses are in iavl. distinct = hash(kind, configuration, repetition); non-trivial = >=20 commits overlapped by >=100 reader operations, or a parked overlap, or a pin check.",
 		Assumptions: []string{"only schedules that happened are judged; race reports are schedule dependent", "the harness' registry (which versions are published / in use) is the monitor's own mutex-guarded state", "readers only read versions the writer has not asked to delete (as the property states)"},
